@@ -25,10 +25,22 @@ CLAIMS = {
   "text": "Full proof: from_routes_rule is invariant under any permutation of a match list with unique ids (C11_permutation), because the processing order is the unique sorted permutation for the total order rank desc / id desc (C11_order_determined, C11_order_is_rank_then_id). Tie: permutations of the match list and of the router insertion order, serialised actions compared byte for byte.",
   "design": "DESIGN.md section 4, C11",
   "note": "Trusted: as C05; serialisation is a function of the action (serde), insertion-order independence of the match SET is C01/C02's subject and is exercised here by correspondence only."},
+ "C06": {
+  "text": "Proof on the serde data model, regenerated from the source. tools/gen_tables.py reads the derive(Serialize, Deserialize) declarations of Action, StatusCodeUpdate, LogOverride, HeaderFilterAction, BodyFilterAction, RuleTrace, HeaderFilter, BodyFilter (untagged), TextBodyFilter, TextAction, HTMLBodyFilter, Request, PathAndQueryWithSkipped, Header on every run (field order, rename, default, Option, unit-variant renames, untagged variant order; any other attribute or a missing derive breaks the tie) into schemas (data); RIO.Json gives ser/de for ANY schema, and SerdeProofs.roundtrip proves de(ser v) = Some v for every well-formed schema and typed value, by induction on the schema (incl. the untagged union: an earlier variant must require a member the later one never writes). Per run: the extracted schemas are well formed (C06_schemas_wf), hence C06_action_roundtrip, C06_request_roundtrip, C06_reser, C06_html_filter_stays_html. Behavioural identity (status, headers, body output, log decision, applied ids; request matching) is a consequence of structural identity for deterministic APIs and is checked on the crate by the correspondence run, which also validates the schemas: every JSON text the crate emits must be read, typed and written back member for member by the extracted schema.",
+  "design": "DESIGN.md section 4, C06",
+  "note": "Trusted: Coq kernel; translator (strict patterns); serde derive + serde_json text layer below the JSON-value model; IpAddr/DateTime string forms opaque; FFI/wasm wrappers are exercised under C18, not here."},
+ "C19": {
+  "text": "Partial proof. (1) Incremental = from scratch: for ANY pipeline that consults the router through match_request and does not depend on the order of the matched rules (C11), the router reached by any admissible history, in particular existing router + change-set, and a router rebuilt from the resulting rule list inserted in ANY order give the same result for every request (C19_project_eq_standalone, C19_change_set; corollaries of the refinement theorem of C02). (2) Redirect chains: RedirectionLoop::compute modelled over an abstract one-hop function; for every one-hop function, start and limit: at most max_hops+1 hops, Loop reported exactly when a (url, method) pair repeats and then as the last hop, TooManyHops only when the limit is exhausted, hops form a path (C19_loop_bound, C19_loop_iff, C19_loop_last, C19_too_many_hops_exact, C19_hops_are_a_path). Decided by the correspondence run only: that the four analyses really are such pipelines (both entry-point families compared on the named projection), and that the response reported for an example is the one of the live pipeline (independent replay in proxy order on a rebuilt router); the chain reported by the crate is compared with the model on the one-hop table taken from the crate.",
+  "design": "DESIGN.md section 4, C19",
+  "note": "Trusted: as C01/C02; unit-trace bookkeeping and the single hop (request building, URL joining) are not modelled; a genuine defect found by this check (explain/impact skipped the request phase) is repaired in /repo 7dc61a8."},
  "C09": {
   "text": "Proof for every configuration (all flag combinations, any marketing list) and every URL satisfying explicit boolean side conditions: a literal rule matches its own URL (C09_literal_matches), the request matching string is invariant under key-stable permutations of the query (C09_param_order), under added/removed ignored marketing parameters (C09_marketing_ignored, C09_rule_matches_equivalent), under ASCII case swap with the case flag (C09_case, C09_case_rule); differing path or decoded parameters never match on the clean domain (C09_differs_no_match); rebuild is idempotent (C09_rebuild_idempotent, C09_rebuild_keeps_request); skipped parameters reach the target iff the pass flag (C09_skipped_iff_pass, C09_target_with_skipped); the separately defined encode sets agree and absorb (C09_encode_sets_agree, C09_encode_absorb[_sets]). Each excluded class has a refuted/witness lemma; four of them are listed known findings reproduced on the crate by committed corpus cases.",
   "design": "DESIGN.md section 4, C09",
   "note": "Trusted: Coq kernel; percent-encoding / form_urlencoded / http::uri::PathAndQuery are MODELLED (byte-class tables copied from the crates, validated by the correspondence run, two 256-byte sweeps by vm_compute); lossy UTF-8 decoding outside the model (precondition utf8_valid); harness + driver."},
+ "C10": {
+  "text": "Partial proof. Proved about the model RIO.Marker, for all inputs satisfying explicit boolean side conditions, closed under the global context: StaticOrDynamic::replace (one str::replace per variable) equals the simultaneous substitution of every '@name' occurrence, for any order of the variables, when no name or value contains '@' and the text between two consecutive '@' is never a strict prefix of a name (C10_substitute); with the code's stable length-descending sort this is the LONGEST-name substitution, so a name never clobbers a longer one (C10_longest_first, C10_longer_name_wins) and the order among equal lengths (HashMap iteration) is immaterial (C10_order_irrelevant); MarkerString::new on a delimited template yields exactly the escaped literals with one (?:e) group per reference, and Some as soon as there is a reference (C10_template_shape); transformer chains are left-to-right folds, Slice returns the clamped byte range, is empty for from > len, and panics exactly for from > clamped to or a bound inside a character (C10_transform_chain, C10_slice); for EVERY group oracle an accepted instantiation matches (C10_match_if), and under separators the match holds iff every instantiation is accepted and the parse is unique, so captures equal the instantiation (C10_match_only_if_partial, C10_capture_partial, C10_route_matches_iff_partial; hypotheses G_sep_free_hyp, fold_sep_hyp, engine_tok_hyp and capture soundness are premises of the statements). Each side condition has a witness lemma on which the conclusion fails; four of them are listed open findings reproduced on the crate by committed corpus cases (value substituted twice, adjacent references glued, header name case ignored by capture, header condition unanchored). Decided by correspondence only: that the regex crate implements the token semantics and returns a valid parse as captures (RIO.Rx stands in, every capture compared), the capture-regex shape, Rule::variables / Variable::get_value / Route::capture / Action plumbing (modelled, not the subject of a theorem), heck and Unicode case conversions (oracles).",
+  "design": "DESIGN.md section 4, C10",
+  "note": "Trusted: Coq kernel; harness + driver + the generator's expectations (own transformer, heck and substitution code, cross-checked against RIO.Marker.simul_longest in Coq on every case); regex crate as an oracle (RIO.Rx executable stand-in validated by the run); URL normalisation as in C09; router reduced to one rule (tree: C08/C01); ignore-case flags only through two corpus cases. Side condition of C10_substitute is stronger than the sketch in DESIGN.md ('no value contains @name'): C10_juxtaposition_witness shows that the sketch's condition is insufficient."},
  "C03": {
   "text": "Partial proof. Proved for every body, filter list and chunking (incl. empty chunks): the chain discipline of FilterBodyAction (early break on empty data, end cascade) preserves chunk invariance whenever each stage satisfies the split law 'feeding c1 then c2 = feeding c1++c2' (C03_chain), and the text stages satisfy it, so any list of text filters is chunk invariant unconditionally (C03_text_stage_law, C03_text_filters). For the HTML stage the split law (restart property of the tokenizer-driven filter) is a named HYPOTHESIS of C03_chain, not a theorem: it is decided by the correspondence run, which compares the crate on 8-12 chunkings of each generated document (cuts inside tags, quoted attributes, comments, scripts, multi-byte characters, one byte at a time) with the single-chunk output and with the executable model of the stage; C03_example_html evaluates the model at every cut of a document containing the three repaired defect shapes.",
   "design": "DESIGN.md section 4, C03",
